@@ -26,7 +26,7 @@ var profC15 = &hist.Profile{
 		hist.OpSeekTime: 2, hist.OpSnapshot: 2, hist.OpSeekSnap: 1, hist.OpSweep: 3, hist.OpJob: 16,
 		hist.OpCreateSub: 5, hist.OpDeleteSub: 3, hist.OpCreateTopic: 2, hist.OpDeleteTopic: 3, hist.OpGetSub: 2, hist.OpGetTopic: 1,
 	},
-	Ordered: 40, Keys: []string{"", "K1", "K2"}, Filters: hist.DefaultFilters,
+	Ordered: 60, Keys: []string{"", "K1", "K1", "K2"}, Filters: hist.DefaultFilters,
 	DLPercent: 35, Attempts: []int{1, 2, 3}, Retry: 60,
 	MinBs: []time.Duration{100 * ms, sec, 10 * sec}, MaxBs: []time.Duration{0, sec, 600 * sec},
 	Rets: []time.Duration{0, 10 * minute, hour}, NoSelfDL: true, AllowPruneCompleted: true, TargetExpiry: true,
@@ -351,12 +351,13 @@ func checkConvergence(s *sut.SUT, cc c15Conv) (rule, detail string, rounds int) 
 	now := sut.Now().UTC().Format("2006-01-02 15:04:05.999999999-07:00")
 	leftovers := []struct{ what, q string }{
 		{"deleted subscriptions", "SELECT name FROM subscriptions WHERE deleted_at IS NOT NULL"},
-		{"deleted topics without live subscriptions", "SELECT name FROM topics t WHERE deleted_at IS NOT NULL AND NOT EXISTS (SELECT 1 FROM subscriptions s WHERE s.topic_id = t.id AND s.deleted_at IS NULL)"},
+		// (a deleted topic stays while a live subscription is attached to it or still names it in its dead-letter policy)
+		{"deleted topics that no live subscription refers to", "SELECT name FROM topics t WHERE deleted_at IS NOT NULL AND NOT EXISTS (SELECT 1 FROM subscriptions s WHERE (s.topic_id = t.id OR s.dead_letter_topic_id = t.id) AND s.deleted_at IS NULL)"},
 		{"completed deliveries", "SELECT id FROM deliveries WHERE completed_at IS NOT NULL"},
 		{"expired deliveries", "SELECT id FROM deliveries WHERE expires_at < '" + now + "'"},
 		{"deliveries of deleted subscriptions", "SELECT d.id FROM deliveries d JOIN subscriptions s ON s.id = d.subscription_id WHERE s.deleted_at IS NOT NULL"},
 		{"messages without deliveries", "SELECT id FROM messages m WHERE NOT EXISTS (SELECT 1 FROM deliveries d WHERE d.message_id = m.id)"},
-		{"snapshots of deleted topics without live subscriptions", "SELECT n.name FROM snapshots n JOIN topics t ON t.id = n.topic_id WHERE t.deleted_at IS NOT NULL AND NOT EXISTS (SELECT 1 FROM subscriptions s WHERE s.topic_id = t.id AND s.deleted_at IS NULL)"},
+		{"snapshots of deleted topics without live subscriptions", "SELECT n.name FROM snapshots n JOIN topics t ON t.id = n.topic_id WHERE t.deleted_at IS NOT NULL AND NOT EXISTS (SELECT 1 FROM subscriptions s WHERE (s.topic_id = t.id OR s.dead_letter_topic_id = t.id) AND s.deleted_at IS NULL)"},
 	}
 	for _, l := range leftovers {
 		rows, err := s.Raw.Query(l.q)
